@@ -46,7 +46,7 @@ def gen_case(ctx: Ctx, rng: random.Random) -> dict:
                        ['interval', t0, 36 * HOUR, None]], None]
     elif kind == 'filtered':
         e = ['time', tod, rng.choice(['earlier', 'later', 'after']), rng.choice(['earlier', 'later', 'twice']),
-             ctx.filt(1, True, True)]
+             ctx.filt(0, True, True)]          # a single date filter: always satisfiable
     else:
         e = sanitize(ctx.op_expr(['time', tod, 'later', 'earlier', None], 0.0), rng)
         if e[0] == 'jitter' and e[2] < 0:
@@ -74,8 +74,11 @@ def gen_case(ctx: Ctx, rng: random.Random) -> dict:
     t0 -= t0 % MS
     n = rng.choice([8, 10, 14])
     late = [rng.choice([0, 0, 0, 0, MS, NS, 15 * MIN]) for _ in range(n)]
-    return {'expr': e, 't0': t0, 'late': late, 'disturb': rng.random() < 0.5, 'pre': rng.random() < 0.6,
-            'fracs': [rng.random() for _ in range(4)]}
+    c = {'expr': e, 't0': t0, 'late': late, 'disturb': rng.random() < 0.5, 'pre': rng.random() < 0.6,
+         'fracs': [rng.random() for _ in range(4)]}
+    if rng.random() < 0.4:
+        c['other_first'] = rng.choice([400 * DAY, 30 * DAY, 3 * DAY + 5 * HOUR])
+    return c
 
 
 def _impl_zone(zone: str, cases: list, scratch: Path) -> list:
